@@ -679,11 +679,15 @@ class Interp:
                     if f.attr in MUTATING_METHODS and isinstance(f.value, ast.Name):
                         mutated.add(f.value.id)
                 # a repo function given a local mutable object may mutate it: conservatively havoc every Name argument
-                if isinstance(f, ast.Name) and f.id in self.callee_frames:
-                    # the callee has a contract with a frame clause: only the arguments it may write count
+                fname = f.id if isinstance(f, ast.Name) else f.attr if isinstance(f, ast.Attribute) else None
+                if fname in self.callee_frames and not (isinstance(f, ast.Attribute) and f.attr in MUTATING_BINNER):
+                    # the callee has a contract with a frame clause: only the arguments it may write (by position or keyword) count
                     for pos, a in enumerate(node.args):
-                        if isinstance(a, ast.Name) and pos in self.callee_frames[f.id]:
+                        if isinstance(a, ast.Name) and pos in self.callee_frames[fname]:
                             mutated.add(a.id)
+                    for kw_ in node.keywords:
+                        if isinstance(kw_.value, ast.Name) and kw_.arg in self.callee_frames[fname]:
+                            mutated.add(kw_.value.id)
                 elif (isinstance(f, ast.Name) and f.id not in PURE_FUNCS) or (isinstance(f, ast.Attribute) and f.attr not in PURE_BINNER):
                     for a in list(node.args) + [k.value for k in node.keywords]:
                         if isinstance(a, ast.Name):
@@ -699,8 +703,10 @@ class Interp:
                 f = node.func
                 if isinstance(f, ast.Attribute) and isinstance(f.value, ast.Name) and f.value.id == name and f.attr in MUTATING_METHODS:
                     return False
-                if isinstance(f, ast.Name) and f.id in self.callee_frames:
-                    if any(isinstance(a, ast.Name) and a.id == name and pos in self.callee_frames[f.id] for pos, a in enumerate(node.args)):
+                fname = f.id if isinstance(f, ast.Name) else f.attr if isinstance(f, ast.Attribute) else None
+                if fname in self.callee_frames and not (isinstance(f, ast.Attribute) and f.attr in MUTATING_BINNER):
+                    if any(isinstance(a, ast.Name) and a.id == name and pos in self.callee_frames[fname] for pos, a in enumerate(node.args)) or \
+                            any(isinstance(k.value, ast.Name) and k.value.id == name and k.arg in self.callee_frames[fname] for k in node.keywords):
                         return False
                 elif (isinstance(f, ast.Name) and f.id not in PURE_FUNCS) or (isinstance(f, ast.Attribute) and f.attr not in PURE_BINNER and f.attr not in MUTATING_BINNER):
                     for a in list(node.args) + [k.value for k in node.keywords]:
